@@ -6,6 +6,9 @@
  * MODE 1: thread a = bind C (on td BIND_T, inside a task of P)   ||  thread b = cancel TARGET
  * MODE 2: thread a = cancel TARGET                               ||  thread b = cancel TARGET2      (C pre-bound)
  * MODE 3: thread a = bind C || thread b = cancel TARGET || thread c = cancel TARGET2
+ * MODE 4: thread a = bind C on td0                               ||  thread b = bind the same C on td1
+ * MODE 5: thread a = destroy C (pre-bound)                       ||  thread b = cancel TARGET
+ * MODE 6: thread a = bind_to_impl(C) only (the hand-shake)       ||  thread b = cancel TARGET  (with CUT_WALK; SC and TSO units)
  * Oracle at quiescence: X cancelled  <=>  X or one of its ancestors (final my_parent chain) was the target of a cancel call;
  * for each target exactly one caller got `true`; C ends bound under P in the binder's list; all locks free. */
 #include "w.h"
@@ -52,7 +55,7 @@ void _ZN3tbb6detail2r121notify_by_address_oneEPv(u8* addr) { (void)addr; }
 
 #ifdef CUT_WALK
 /* thread_data::propagate_task_group_state (per-thread list walk) is cut in this unit: the stub only records that the
-   canceller got past the children-hint test; the query then assumes it did not (see hint_dekker_* in spec.py) */
+   canceller got past the children-hint test; the query then assumes it did not (see hint_dekker_sc / handshake_* in spec.py) */
 int walk_happened;
 void _ZN3tbb6detail2r111thread_data26propagate_task_group_stateEMNS0_2d118task_group_contextESt6atomicIjERS4_j(
     struct S_class_tbb__detail__r1__thread_data* td, u64 mptr, ctx_t* src, u32 st) { (void)td; (void)mptr; (void)src; (void)st; walk_happened = 1; }
@@ -67,12 +70,6 @@ void vp_bound(u32 tid) { (void)tid; bound_done++;
 #endif
 }
 
-#define NVCS(t) NVCS_(t)
-#define NVCS_(t) t##_cs
-#define NV_(t) NV__(t)
-#define NV__(t) t##_NV
-#define STEP(t) STEP_(t)
-#define STEP_(t) t##_step
 #define FIN(t) FIN_(t)
 #define FIN_(t) t##_fin
 static int idx_of(ctx_t* p) { for (int i = 0; i < NC; i++) if (p == vp_ctx(i)) return i; return -1; }
@@ -190,7 +187,8 @@ int main(void) {
   /* completion: every thread runs as far as it can. In this world no loop exceeds the unroll bound, so a thread can
      only be stopped by a mutex another thread holds, and nobody waits while holding a mutex the lock holder needs:
      x,y,(z),x,(y,z) lets everybody finish */
-#if defined(SHORT_COMPLETION)   /* a,b only: enough when thread b can never be left holding a mutex (walk excluded) */
+#if defined(SHORT_COMPLETION)   /* a,b only: enough when at most one of the two threads ever takes a mutex (hand-shake with the
+                                   walk excluded; two cancellers of one context, where the loser returns at once) */
   MAX_A() MAX_B()
 #elif ORDER == 0
   MAX_A() MAX_B() MAX_C() MAX_A()
@@ -208,12 +206,6 @@ int main(void) {
 #else
   unfinished = !FIN(THA) || !FIN(THB);
 #endif
-#endif
-#if MODE == 90   /* experiment: canceller alone, symbolic slicing */
-  vp_thr_cancel_b_start(vp_ctx(TARGET), 1); requested[TARGET] = 1;
-  for (int r = 0; r < ROUNDS; r++) { VP_RUNT(vp_thr_cancel_b, 0) }
-  vp_cur = 0; VP_RUNMAX(vp_thr_cancel_b)
-  unfinished = !vp_thr_cancel_b_fin;
 #endif
   __CPROVER_assume(!unfinished);
 #ifdef CUT_WALK
